@@ -342,13 +342,10 @@ class World(object):
             elif lk == 'reldangling':
                 tgt = 'nowhere/tgt-%d' % o
             elif lk == 'relfile':
-                # relative target living next to the link
-                tp = os.path.dirname(pathb) + b'/.tg-%d' % o
-                if not in_trash and not os.path.lexists(tp):
-                    with open(tp, 'wb') as f:
-                        f.write(tag + b'reltarget')
-                    self.created_outside.add(tp)
-                tgt = '.tg-%d' % o
+                # relative target (meaningful at the original location only)
+                tgt = os.path.relpath(self.outside_target(o, 'file'), os.fsdecode(os.path.dirname(pathb)))
+                if in_trash:
+                    tgt = '../../rel-target-%d' % o
             else:
                 tgt = self.outside_target(o, lk)
             os.symlink(os.fsencode(tgt), pathb)
@@ -719,7 +716,12 @@ class World(object):
                     anomalies.append('outside entry vanished: %r' % k)
         st = {'live': live, 'dirs': dirs, 'tex': tex, 'items': items, 'orph': orph, 'strays': strays, 'junk': junk}
         self.last_slots = slots
+        self.last_snapshot = snap
         return st, anomalies, slots
+
+    def rebaseline(self):
+        """make the state just projected the reference for the next step (behaviour replay)"""
+        self.baseline = self.last_snapshot
 
     def classify(self, rel):
         """class of a sandbox-relative path (str): 'trash' (inside a trash directory or one of the
